@@ -884,6 +884,20 @@ ldb_lock_file(const char *filename, ldb_filelock_t **lock) {
 
   ldb_mutex_lock(&file_mutex);
 
+  /* A file this process has already locked must be refused before it
+     is opened: with POSIX record locks, closing any descriptor of a
+     file releases the process's lock on it, so opening and closing
+     it again here would silently drop the first handle's lock. */
+  if (stat(filename, &st) == 0) {
+    id.dev = st.st_dev;
+    id.ino = st.st_ino;
+
+    if (rb_set_has(&file_set, &id)) {
+      ldb_mutex_unlock(&file_mutex);
+      return ENOLCK;
+    }
+  }
+
   fd = ldb_open(filename, O_RDWR | O_CREAT, 0644);
 
   if (fd < 0 || fstat(fd, &st) != 0)
